@@ -2821,7 +2821,7 @@ def lib_gradient(ev, a, k, n, mod):
 
 
 def lib_quantity(ev, a, k, n, mod):
-    val = as_sym(a[0])
+    val = a[0] if isinstance(a[0], ArrV) else as_sym(a[0])        # a small array of magnitudes: one unit for all of them
     unit = a[1] if len(a) > 1 else k.get("units")
     if isinstance(unit, str):
         unit = UnitV(U.parse_unit_string(unit))
@@ -2836,6 +2836,8 @@ def lib_qty_to(ev, a, k, n, mod):
         unit = UnitV(U.parse_unit_string(unit))
     if not isinstance(unit, UnitV):
         raise ev.err(".to() without a resolvable unit", n, mod)
+    if isinstance(q.val, ArrV):
+        return QtyV(ev.arr_binop(ast.Mult(), q.val, q.unit / unit.expr, n, mod), unit.expr)
     return QtyV(q.val * q.unit / unit.expr, unit.expr)
 
 
